@@ -233,6 +233,13 @@ def _cov_gen(rng, case):
     base = r.normal(size=n)
     obs = []
     for k in range(m):
+        if rng.random() < 0.3:
+            # an observable on another ensemble only (no chain in common with the others): zero covariance, and it must not
+            # disturb the entries of the pairs around it
+            o = pe.Obs([r.normal(size=17) + k], ["B"])
+            o.gamma_method(S=rng.choice([0.0, 1.0, 2.0]))
+            obs.append(o)
+            continue
         o = pe.Obs([rng.uniform(0.2, 1.0) * base + r.normal(size=n) + k], ["A"])
         if rng.random() < 0.3:
             o = o + pe.Obs([r.normal(size=17)], ["B"])
